@@ -108,7 +108,7 @@ static void on_signal (int sig)
 
 // ------------------------------------------------------------------ fault injector + event log
 enum FK { FK_NONE = 0, FK_ALLOC = 1, FK_COPY = 2, FK_MOVE = 3, FK_CASSIGN = 4, FK_MASSIGN = 5,
-          FK_DEFAULT = 6, FK_VALUE = 7, FK_DEREF = 8, FK_INCR = 9, FK_GEN = 10 };
+          FK_DEFAULT = 6, FK_VALUE = 7, FK_DEREF = 8, FK_INCR = 9, FK_GEN = 10, FK_SWAP = 11 };
 
 struct InjectedFault { int kind; };
 
@@ -287,12 +287,13 @@ static bool all_zones_ok ()
 // ------------------------------------------------------------------ element types
 enum { MAGIC_ALIVE = 0x5A11FE01, MAGIC_DEAD = 0x0DEAD0DE };
 
-#define ELEM_NOTHROW_MOVE_CTOR   (CFG_ELEM == 0 || CFG_ELEM == 2 || CFG_ELEM == 5 || CFG_ELEM == 6 || CFG_ELEM == 8 || CFG_ELEM == 9)
-#define ELEM_NOTHROW_MOVE_ASSIGN (CFG_ELEM == 0 || CFG_ELEM == 2 || CFG_ELEM == 5 || CFG_ELEM == 6 || CFG_ELEM == 7 || CFG_ELEM == 9)
+#define ELEM_NOTHROW_MOVE_CTOR   (CFG_ELEM == 0 || CFG_ELEM == 2 || CFG_ELEM == 5 || CFG_ELEM == 6 || CFG_ELEM == 8 || CFG_ELEM >= 9)
+#define ELEM_NOTHROW_MOVE_ASSIGN (CFG_ELEM == 0 || CFG_ELEM == 2 || CFG_ELEM == 5 || CFG_ELEM == 6 || CFG_ELEM == 7 || CFG_ELEM >= 9)
 #define ELEM_NOTHROW_MOVE (ELEM_NOTHROW_MOVE_CTOR && ELEM_NOTHROW_MOVE_ASSIGN)
 #define ELEM_COPYABLE     (CFG_ELEM != 2 && CFG_ELEM != 3)
 #define ELEM_HAS_MOVE     (CFG_ELEM != 4)
-#define ELEM_TRACKED      (CFG_ELEM <= 4 || CFG_ELEM == 7 || CFG_ELEM == 8)
+#define ELEM_TRACKED      (CFG_ELEM <= 4 || CFG_ELEM == 7 || CFG_ELEM == 8 || CFG_ELEM == 10)
+#define ELEM_ADL_SWAP     (CFG_ELEM == 10)
 
 // A source value that elements can be CONSTRUCTED from (explicitly) but not ASSIGNED from: ranges of these take the
 // library's "not assignable from *first" routes (assign = erase everything, then append).
@@ -382,6 +383,18 @@ struct Tracked
     obj_event (3, this, 0, 0, magic != MAGIC_ALIVE);
     magic = MAGIC_DEAD;
   }
+
+#if ELEM_ADL_SWAP
+  // flavour SW: nothrow moves, but a user swap found by ADL that may throw (before it has any effect) and that creates
+  // no temporary -- the container's swap is then potentially throwing although every move is noexcept
+  friend void swap (Tracked &a, Tracked &b) noexcept (false)
+  {
+    g_inj.tick (FK_SWAP);
+    if (a.magic != MAGIC_ALIVE || b.magic != MAGIC_ALIVE) obj_event (2, &a, 2, &b, true);     // swapping dead storage
+    int t = a.v; a.v = b.v; b.v = t;
+    t = a.mf; a.mf = b.mf; b.mf = t;
+  }
+#endif
 };
 
 inline bool operator== (const Tracked &a, const Tracked &b) { return a.v == b.v; }
@@ -414,7 +427,7 @@ inline bool operator<= (const Triv &a, const Triv &b) { return a.v <= b.v; }
 inline bool operator>  (const Triv &a, const Triv &b) { return a.v >  b.v; }
 inline bool operator>= (const Triv &a, const Triv &b) { return a.v >= b.v; }
 
-#if CFG_ELEM <= 4 || CFG_ELEM == 7 || CFG_ELEM == 8
+#if CFG_ELEM <= 4 || CFG_ELEM == 7 || CFG_ELEM == 8 || CFG_ELEM == 10
 typedef Tracked Elem;
 static inline int  val_of (const Elem &e) { return e.v; }
 static inline int  mf_of (const Elem &e) { return e.mf; }
@@ -422,6 +435,28 @@ static inline Elem make_elem (int v) { bool l = g_logging; g_logging = false; bo
 #elif CFG_ELEM == 5
 typedef Triv Elem;
 static inline int  val_of (const Elem &e) { return e.v; }
+static inline int  mf_of (const Elem &) { return 0; }
+static inline Elem make_elem (int v) { Elem e (v); return e; }
+#elif CFG_ELEM == 11
+// trivially copyable, trivially default constructible, but all-zero bytes are NOT its value-initialised state: a null
+// pointer to data member is -1 in the Itanium ABI, zero bytes are &PmHost::pad.  A "zero the storage" shortcut shows as -997.
+struct PmHost { int pad; int a; };
+struct PmElem
+{
+  int PmHost::*p;
+  int v;
+  PmElem () = default;
+  /* implicit */ PmElem (int x) : p (&PmHost::a), v (x) { }
+  explicit PmElem (const Src &x) : p (&PmHost::a), v (x.v) { }
+};
+inline bool operator== (const PmElem &a, const PmElem &b) { return a.v == b.v; }
+inline bool operator!= (const PmElem &a, const PmElem &b) { return a.v != b.v; }
+inline bool operator<  (const PmElem &a, const PmElem &b) { return a.v <  b.v; }
+inline bool operator<= (const PmElem &a, const PmElem &b) { return a.v <= b.v; }
+inline bool operator>  (const PmElem &a, const PmElem &b) { return a.v >  b.v; }
+inline bool operator>= (const PmElem &a, const PmElem &b) { return a.v >= b.v; }
+typedef PmElem Elem;
+static inline int  val_of (const Elem &e) { return (e.p == nullptr || e.p == &PmHost::a) ? e.v : -997; }
 static inline int  mf_of (const Elem &) { return 0; }
 static inline Elem make_elem (int v) { Elem e (v); return e; }
 #elif CFG_ELEM == 9
@@ -441,7 +476,7 @@ static inline Elem make_elem (int v) { return v; }
 
 static const char *elem_name ()
 {
-  static const char *n[] = { "NT", "TM", "MO", "MOT", "CO", "TRIV", "INT", "MA", "MC", "FLT" };
+  static const char *n[] = { "NT", "TM", "MO", "MOT", "CO", "TRIV", "INT", "MA", "MC", "FLT", "SW", "PM" };
   return n[CFG_ELEM];
 }
 
@@ -450,7 +485,7 @@ static const char *elem_name ()
 #define CFG_CONSTRUCT 0
 #endif
 #define DEFVAL (CFG_CONSTRUCT == 2 ? 42 : 0)
-#if CFG_ELEM <= 5 || CFG_ELEM == 7 || CFG_ELEM == 8
+#if CFG_ELEM <= 5 || CFG_ELEM == 7 || CFG_ELEM == 8 || CFG_ELEM >= 10
 static inline void mark_value_constructed (Elem &e) { e.v = 42; }
 #else
 static inline void mark_value_constructed (Elem &e) { e = 42; }
@@ -2006,7 +2041,7 @@ static void print_cfg ()
            "{\"t\":\"cfg\",\"name\":\"%s\",\"na\":%d,\"nb\":%d,\"elem\":\"%s\",\"nothrowMove\":%s,\"copyable\":%s,\"hasMove\":%s,"
            "\"nothrowMoveCtor\":%s,\"nothrowMoveAssign\":%s,\"tracked\":%s,\"isStd\":%s,\"pocca\":%s,\"pocma\":%s,\"pocs\":%s,\"ae\":%s,\"construct\":%s,\"sizet\":%d,"
            "\"max\":%ld,\"allocMax\":%ld,\"diffMax\":%ld,\"soccc\":%d,\"std\":%ld,\"compiler\":\"%s\",\"concepts\":%d,\"vector\":%s,\"szA\":%zu,\"szB\":%zu,"
-           "\"flt\":%s,\"defval\":%d}\n",
+           "\"flt\":%s,\"defval\":%d,\"adlswap\":%s}\n",
            CFG_NAME, CFG_NA, CFG_NB, elem_name (), ELEM_NOTHROW_MOVE ? "true" : "false", ELEM_COPYABLE ? "true" : "false",
            ELEM_HAS_MOVE ? "true" : "false", ELEM_NOTHROW_MOVE_CTOR ? "true" : "false", ELEM_NOTHROW_MOVE_ASSIGN ? "true" : "false",
            ELEM_TRACKED ? "true" : "false", CFG_ALLOC == 0 ? "true" : "false",
@@ -2015,7 +2050,7 @@ static void print_cfg ()
            clamp30 (std::allocator_traits<Alloc>::max_size (make_alloc (1))),
            clamp30 (static_cast<unsigned long long> ((std::numeric_limits<std::allocator_traits<Alloc>::difference_type>::max) ())), CFG_SOCCC,
            static_cast<long> (__cplusplus), comp, concepts, CFG_VECTOR ? "true" : "false", sizeof (VA), sizeof (VB),
-           CFG_ELEM == 9 ? "true" : "false", DEFVAL);
+           CFG_ELEM == 9 ? "true" : "false", DEFVAL, ELEM_ADL_SWAP ? "true" : "false");
 }
 
 int main (int argc, char **argv)
